@@ -1,6 +1,7 @@
 """C05 (and parts of C03/C19): index containers — R-OVF, panic-edge inventory,
 R-NOWRITE-ON-REJECT, concatenation agreement of the two-level containers, R-ITER for their
 iterators."""
+import re
 from core import Ctx, callee_tag, classify, describe, short, base_places, closure_sites
 from model import Catalogue, self_field_targets, constructed
 from expr import (infeasible, trees, tree, show, facts_at, operand_tree, place_tree, lin, lin_eq, reach_strict,
@@ -215,6 +216,42 @@ def ovf_key(op, a, c):
 # panic-edge inventory of the state-writing functions
 
 
+def _types_behind(b, ctx, l, depth=0):
+    """type names of local l and of the locals it is a plain copy of (generic `T` of an inlined
+    helper resolves to the caller's concrete type)"""
+    out = {b.locals[l]["ty"]["s"]}
+    if depth > 5:
+        return out
+    for d_ in ctx.org.defs.get(l, ()):
+        if d_[0] == () and d_[1] == "stmt":
+            rv = ctx.org.stmt(*d_[2])["rv"]
+            if rv["k"] in ("use", "cast") and rv["op"]["k"] in ("copy", "move") and not rv["op"]["place"]["p"]:
+                out |= _types_behind(b, ctx, rv["op"]["place"]["l"], depth + 1)
+    return out
+
+
+def _payload_receivers(b, res_local):
+    """types of the locals that receive the Ok payload of the Result held in res_local"""
+    out = set()
+    recv = set()
+    for bi in b.live_blocks():
+        for st in b.blocks[bi]["stmts"]:
+            if st["k"] == "assign" and st["rv"]["k"] == "use" and st["rv"]["op"]["k"] in ("copy", "move"):
+                pl = st["rv"]["op"]["place"]
+                if pl["l"] == res_local and any(e["k"] == "downcast" and e.get("name") == "Ok" for e in pl["p"]) \
+                        and not st["place"]["p"]:
+                    recv.add(st["place"]["l"])
+    for _ in range(3):
+        for bi in b.live_blocks():
+            for st in b.blocks[bi]["stmts"]:
+                if st["k"] == "assign" and st["rv"]["k"] == "use" and st["rv"]["op"]["k"] in ("copy", "move") and \
+                        not st["rv"]["op"]["place"]["p"] and st["rv"]["op"]["place"]["l"] in recv and not st["place"]["p"]:
+                    recv.add(st["place"]["l"])
+    for l in recv:
+        out.add(b.locals[l]["ty"]["s"])
+    return out
+
+
 def r_panic_edges(F, R):
     bodies = [b for b in F.bodies.values() if not b.in_tests() and (
         (b.self_adt in (STRIDE, "impls::index::IndexList", "impls::index::IndexOptimized") and
@@ -241,6 +278,29 @@ def r_panic_edges(F, R):
                     if infeasible(ctx, bi):
                         R.info("R-PANIC: %s: the panic at %s is unreachable (its branch condition contradicts "
                                "a dominating branch on the same operands)" % (b.label(), where))
+                        continue
+                    # the Err arm of a usize -> u64 conversion (`match index.try_into() { Ok(v) => v,
+                    # Err(_) => cold_panic() }`): same as the accepted `.unwrap()` of that conversion
+                    dead_conv = False
+                    for f in facts_at(ctx, bi):
+                        x = f[1]
+                        if f[0] == "variant" and x[0] == "call" and x[1] in (("TryInto", "try_into"), ("TryFrom", "try_from")) \
+                                and len(x) == 5 and (f[2] == "1" or (isinstance(f[2], tuple) and f[2][0] == "not" and "0" in f[2][1])):
+                            ct = b.term(x[4])
+                            a0 = ct["args"][0] if ct["k"] == "call" and ct["args"] else None
+                            if a0 is None or a0["k"] not in ("move", "copy") or ct["k"] != "call":
+                                continue
+                            # concrete types, also when the conversion sits in an inlined generic helper
+                            src_tys = _types_behind(b, ctx, a0["place"]["l"])
+                            dst = b.locals[ct["dest"]["l"]]["ty"]["s"]
+                            dst_tys = {m.group(1) for m in [re.search(r"Result<([A-Za-z0-9_]+),", dst)] if m}
+                            dst_tys |= _payload_receivers(b, ct["dest"]["l"])
+                            if "usize" in src_tys and dst_tys & {"u64", "u128", "usize"} and \
+                                    not (dst_tys & {"u8", "u16", "u32", "i8", "i16", "i32", "i64", "isize"}):
+                                dead_conv = True
+                    if dead_conv:
+                        R.check("R-PANIC", b.label(), True, construct="panic on the Err arm of usize -> u64",
+                                where=where, detail="accepted: the conversion cannot fail on supported targets")
                         continue
                     R.check("R-PANIC", b.label(), False, construct="diverging call %s" % tag[1],
                             where=where, detail="unexpected panic in an index-container write path")
